@@ -10,7 +10,8 @@ C20-c  compint_to_int: the size_t -> int narrowing is dominated by a range test 
 C20-d  MAX_COMP_SIZE = ceil(64/7) = 10; the encoder emits at most that many bytes; every encoder destination
        reserves enough bytes for the integers written into it.
 C20-e  every decoder call site passes (base + cursor, &cursor, limit) with the same cursor in both places.
-Declined: encode/decode value agreement for all values (relational arithmetic).
+C20-f  the encoder emits exactly n bytes for values that need n seven-bit groups (interval run per range).
+Declined: encode/decode value agreement bit for bit (relational arithmetic).
 """
 from ..ir import strip, strip_transparent, show, callee_name, const_value, walk, walk_stmts, calls_in
 from ..program import rel, all_exprs, unique_defs
@@ -191,6 +192,28 @@ def run(ctx):
         except AnalysisBroken as ex2:
             ck.ob('C20-d', 'R9.interval', enc.name, 'encoded-length', False,
                   'encoder loop is not bounded by the interval analysis: %s' % ex2, enc.file, enc.line, config=config)
+        # ---- f  the number of bytes emitted is the number of 7-bit groups of the value: for v in [128^(n-1), 128^n - 1]
+        #         exactly n bytes (n = 10 for [128^9, 2^64 - 1]); together with the decoder's value range per length
+        #         (C20-b: n bytes decode to at most 128^n - 1) this is a necessary condition of the round trip - a
+        #         value that is emitted in fewer bytes cannot decode to itself
+        bad_len = []
+        for n_ in range(1, 11):
+            lo_ = 0 if n_ == 1 else 128 ** (n_ - 1)
+            hi_ = min(128 ** n_ - 1, SIZE_MAX)
+            itn = IntervalInterp(prog, enc, input_params=(), out_params=('length',))
+            itn.MAX_STEPS = 20000
+            try:
+                exn = itn.run({('v', p['val'].decl, 'val'): (lo_, hi_), ('d', p['length'].decl, '*length'): (0, 0)})
+            except AnalysisBroken as ex3:
+                bad_len.append((n_, 'not bounded: %s' % ex3))
+                continue
+            got = sorted(set(st.env.get(('d', p['length'].decl, '*length')) for rv, st, node in exn))
+            if got != [(n_, n_)]:
+                bad_len.append((n_, 'values in [%d, %d] are emitted in %s byte(s)' % (lo_, hi_, got)))
+        ck.ob('C20-f', 'R9.interval', enc.name, 'length-per-range', not bad_len,
+              'for every n in 1..10 the values that need n seven-bit groups are emitted in exactly n bytes' if not bad_len
+              else 'encoder: %s, expected exactly %d: the value cannot decode to itself (the decoder returns at most '
+              '128^n - 1 from n bytes)' % (bad_len[0][1], bad_len[0][0]), enc.file, enc.line, config=config)
         # reservations
         reservations(ck, prog, config, maxc)
         # ---- e call sites
